@@ -33,7 +33,7 @@ type c06Case struct {
 type c06Got struct {
 	Class       c06lib.Class
 	Code, Sub   uint8
-	RawSub      uint8 // subcode of the error that decided, also when it did not lead to a NOTIFICATION
+	RawSub      uint8  // subcode of the error that decided, also when it did not lead to a NOTIFICATION
 	Stage       string // which stage produced the final class: decode / validate / none
 	DecodeClass string
 	Skipped     bool // ValidateUpdateMsg was not run because the decoder already reported something
@@ -404,12 +404,15 @@ func c06Check(r *vr.Report, cs c06Case, raw []byte) {
 
 // c06Enumerate walks the case space in a fixed order; the message of a case is only built when the
 // callback asks for it (workers skip the cases of other workers cheaply).
-func c06Enumerate(bases []string, pairs func(base string, i, j int) bool, fn func(cs func() c06Case, build func() ([]byte, bool))) {
+func c06Enumerate(bases []string, phase int, pairs func(base string, i, j int) bool, fn func(cs func() c06Case, build func() ([]byte, bool))) {
 	for _, pt := range c06lib.PeerTypes {
 		for _, bn := range bases {
 			b := c06lib.BuildBase(bn, pt, c06lib.MarkerNew)
 			cat := c06lib.Catalogue(b, pt)
 			for _, revised := range []bool{true, false} {
+				if phase == 1 {
+					goto pairsOnly
+				}
 				fn(func() c06Case { return c06Case{Base: bn, Peer: int(pt), Revised: revised} }, func() ([]byte, bool) { return b.Msg.Bytes(), true })
 				for i := range cat {
 					fn(func() c06Case { return c06Case{Base: bn, Peer: int(pt), Revised: revised, Faults: []string{cat[i].ID}} },
@@ -421,6 +424,8 @@ func c06Enumerate(bases []string, pairs func(base string, i, j int) bool, fn fun
 							return m.Bytes(), true
 						})
 				}
+				continue
+			pairsOnly:
 				for i := range cat {
 					for j := i + 1; j < len(cat); j++ {
 						if !pairs(bn, i, j) {
@@ -495,26 +500,30 @@ func TestVerif_C06_Classify(t *testing.T) {
 	}
 	r.Extra["single_faults_per_base"] = sizes
 	W := vr.Workers()
-	r.Parallel(W, func(w int, c *vr.Report) {
-		n := 0
-		c06Enumerate(c06lib.BaseNames, pairs, func(mk func() c06Case, build func() ([]byte, bool)) {
-			n++
-			if n%W != w {
-				return
-			}
-			raw, ok := build()
-			if !ok {
-				c.Outcome("fault pair not applicable together (skipped)")
-				return
-			}
-			cs := mk()
-			c06Check(c, cs, raw)
-			if c.WantSample() && (n%40009 == 0 || (len(cs.Faults) == 1 && n%97 == 0)) {
-				cs.Hex = c06lib.Hex(raw)
-				c.Sample(cs)
-			}
+	// phase 0: the well-formed bases and every single fault (so that the case kept for a violation key is a
+	// single fault whenever one suffices); phase 1: the pairs
+	for phase := 0; phase < 2; phase++ {
+		r.Parallel(W, func(w int, c *vr.Report) {
+			n := 0
+			c06Enumerate(c06lib.BaseNames, phase, pairs, func(mk func() c06Case, build func() ([]byte, bool)) {
+				n++
+				if n%W != w {
+					return
+				}
+				raw, ok := build()
+				if !ok {
+					c.Outcome("fault pair not applicable together (skipped)")
+					return
+				}
+				cs := mk()
+				c06Check(c, cs, raw)
+				if c.WantSample() && (n%40009 == 0 || (len(cs.Faults) == 1 && n%97 == 0)) {
+					cs.Hex = c06lib.Hex(raw)
+					c.Sample(cs)
+				}
+			})
 		})
-	})
+	}
 	// the NOTIFICATION 0/0 probe: an UPDATE with IPv4 NLRI on a session that did not negotiate IPv4 unicast
 	for _, pt := range c06lib.PeerTypes {
 		b := c06lib.BuildBase("v4min", pt, c06lib.MarkerNew)
